@@ -3,6 +3,7 @@ cache for every call history."""
 import inspect
 import itertools
 import json
+import re
 
 from ..lib import coqrun
 
@@ -19,15 +20,23 @@ RULE = ("histories of 1..60 operations (call / finish of a blocked body / drop i
         "logical argument tuple from a key space of <= 5; 25% blocking bodies (overlap), 15% raising bodies; 20% of "
         "cases carry malformed calls / ops (missing, surplus, duplicate arguments, stray finishes, maxsize <= 0, "
         "clock at 0 or running backwards); both tiers add histories a, b1..bn over all spellings of six signatures (thorough: every a, so every ordered "
-        "pair of spellings meets).  distinct = different case after dropping meta; non-trivial = the reference cache sees >= 1 hit, "
-        ">= 1 miss and (alru) >= 1 eviction / (per-instance) >= 2 instances or a drop / (lazy) a dirty- or ttl-forced recomputation")
+        "pair of spellings meets); plus FAMILIES (quick 200, thorough 4000): 2-3 functions (or methods of one class) decorated through "
+        "explicit decorator objects - all through one object (`memo = alru_cache(maxsize=2)`, `@memo` twice), each through its own "
+        "decorator call, or mixed - with equal / neighbouring / unrelated signatures over a common value domain, per-object maxsize in "
+        "{1,2,3,4,128} and key_fn, interleaved calls / finishes (/ drops of instances shared by the methods / dirty() per function / "
+        "common clock ticks), for alru_cache, acached_per_instance and alazy_constant.  distinct = different case after dropping meta; non-trivial = the reference cache sees >= 1 hit, "
+        ">= 1 miss and (alru) >= 1 eviction / (per-instance) >= 2 instances or a drop / (lazy) a dirty- or ttl-forced recomputation; "
+        "(family) >= 2 functions called, >= 1 hit, >= 1 miss and two functions meet on the same normalised arguments / key (or an "
+        "eviction; lazy: a forced recomputation)")
 TRUSTED = ["qcore.caching.LRUCache / get_args_tuple / get_kwargs_defaults (compiled qcore from the venv) are modelled in Cache.v "
            "and validated only by this correspondence",
            "the scheduler performs the gated operations in history order (highest-priority batch first: property C05); "
            "the runner records the order and the comparator rejects a run that deviates",
            "CPython weakref callbacks / gc.collect() for the per-instance Drop operation",
            "monitors use inspect.signature(...).bind as the definition of 'normalised arguments'"]
-ASSUMPTIONS = ["argument and result values are small integers (no 1 == True == 1.0 key aliasing)",
+ASSUMPTIONS = ["families: every decorator object of a case is applied to at least one function; an instance is dropped only when "
+               "none of its calls (in any method) can still be in flight; the reference is one independent cache per decorated function",
+               "argument and result values are small integers (no 1 == True == 1.0 key aliasing)",
                "signatures without *args (outside the statement's list of spellings; see docs/C13.md for what a probe shows there)",
                "a call whose arguments do not bind to the signature is outside the statement (the model follows the code; monitors skip it)",
                "Drop is issued only when no call on that instance is in flight (otherwise it is refused on both sides)",
@@ -35,10 +44,12 @@ ASSUMPTIONS = ["argument and result values are small integers (no 1 == True == 1
                "overwritten by that recomputation's completion, on both sides",
                "alazy_constant: the clock is positive and monotone in the monitored stream"]
 
-EXPLANATION = ("19 Coq theorems about Cache.v (see docs/C13.md) + differential run of every generated history through Cache.run_both and "
+EXPLANATION = ("28 Coq theorems about Cache.v (see docs/C13.md) + differential run of every generated history through Cache.run_both and "
                "through alru_cache / acached_per_instance / alazy_constant in both builds (results, cache sizes, body-run log per operation) + "
-               "reference-cache monitors. Open finding (known/C13.json): alru_cache's default key drops argument 0 from arg_names "
-               "(tools.py:229); the theorems are about the repaired construction, the tree's construction is Cache.run_case_src.")
+               "reference-cache monitors.  Families of functions decorated through shared or separate decorator objects are modelled as one "
+               "cache machine per decorated function (proved: every function observes its own projection of the history) and monitored "
+               "against one independent reference cache per function.  Former finding (known/C13.json, fixed in the tree): alru_cache's "
+               "default key dropped argument 0 from arg_names; the theorems are about the repaired construction, the old one is Cache.run_case_src.")
 
 LETTERS = "abcdefghijklmnopqrstuvwxyz"
 SELF = 99
@@ -49,11 +60,13 @@ def pname(n):
 
 
 # --------------------------------------------------------------------------------------------- cases
-def _call(i, args, kw, bl=False, body=None, inst=None):
+def _call(i, args, kw, bl=False, body=None, inst=None, fn=None):
     d = {"op": "call", "id": i, "args": list(args), "kw": [list(x) for x in kw], "bl": bl,
          "body": body or ["ret", 100 + i]}
     if inst is not None:
         d["inst"] = inst
+    if fn is not None:
+        d["fn"] = fn
     return d
 
 
@@ -230,6 +243,169 @@ def gen_case(rng):
     return c
 
 
+# ---- families: 2-3 functions (or methods of one class) decorated through explicit decorator objects
+SHARING = {2: [[0, 0], [0, 0], [0, 1]], 3: [[0, 0, 0], [0, 0, 0], [0, 1, 2], [0, 0, 1], [0, 1, 0], [0, 1, 1]]}
+
+
+def _sim_sig(rng, sig):
+    """a neighbouring signature: other defaults / one more trailing parameter / one keyword-only fewer / **kwargs toggled"""
+    s = json.loads(json.dumps(sig))
+    r = rng.random()
+    npos = len(s["pos"])
+    if r < 0.4 and npos:
+        ndef = rng.randint(0, npos)
+        s["pos"] = [[i, rng.choice([0, 2, 2, 3]) if i >= npos - ndef else None] for i in range(npos)]
+    elif r < 0.65 and npos < 3:
+        s["kw"] = [[m + 1, d] for m, d in s["kw"]]
+        s["pos"].append([npos, rng.choice([0, 2, 3])])
+    elif r < 0.8 and s["kw"]:
+        s["kw"] = s["kw"][:-1]
+    else:
+        s["varkw"] = not s["varkw"]
+    return s
+
+
+def gen_family_history(rng, kind, sigs, malformed, ninst, with_drop, n):
+    """interleaved calls of the functions of a family; a drop is only issued for an instance none of whose calls
+    (in any method) may still be in flight"""
+    nf = len(sigs)
+    if rng.random() < 0.6:      # one common value domain, so that normalised arguments of different functions coincide
+        base = logical_space(rng, sigs[0], rng.choice([1, 2, 3]))
+        spaces = []
+        for sg in sigs:
+            if sg == sigs[0]:
+                spaces.append(base)
+            else:
+                spaces.append(logical_space(rng, sg, rng.choice([1, 2, 3])))
+    else:
+        spaces = [logical_space(rng, sg, rng.choice([1, 2, 3, 4])) for sg in sigs]
+    ops = []
+    pending = []       # (id, inst, fn)
+    maybe_busy = set()
+    i = 0
+    while len(ops) < n:
+        r = rng.random()
+        if pending and r < 0.25:
+            cid, ci, cf = pending.pop(rng.randrange(len(pending)))
+            f = {"op": "finish", "id": cid, "fn": cf}
+            if ci is not None:
+                f["inst"] = ci
+            ops.append(f)
+            continue
+        if with_drop and r < 0.35:
+            free = [x for x in range(ninst) if x not in maybe_busy]
+            if free:
+                ops.append({"op": "drop", "inst": rng.choice(free)})
+                continue
+        if malformed and r < 0.40:
+            f = {"op": "finish", "id": rng.randrange(0, max(1, i + 2)), "fn": rng.randrange(nf)}
+            if ninst:
+                f["inst"] = rng.randrange(ninst)
+            ops.append(f)
+            continue
+        fn = rng.randrange(nf)
+        lg = rng.choice(spaces[fn])
+        if malformed and rng.random() < 0.3:
+            args, kw = bad_spell(rng, sigs[fn], lg)
+        else:
+            args, kw = spell(rng, sigs[fn], lg)
+        bl = rng.random() < 0.2
+        body = ["raise", 500 + i] if rng.random() < 0.12 else ["ret", 100 + i]
+        inst = rng.randrange(ninst) if ninst else None
+        ops.append(_call(i, args, kw, bl, body, inst, fn))
+        if bl:
+            if inst is not None:
+                maybe_busy.add(inst)
+            if rng.random() < 0.9:
+                pending.append((i, inst, fn))
+        i += 1
+    for cid, ci, cf in pending:
+        if rng.random() < 0.7:
+            f = {"op": "finish", "id": cid, "fn": cf}
+            if ci is not None:
+                f["inst"] = ci
+            ops.append(f)
+    return ops
+
+
+FAM_LENS = [2, 3, 4, 6, 8, 10, 14, 20, 30, 45]
+
+
+def gen_family(rng):
+    malformed = rng.random() < 0.12
+    nf = rng.choice([2, 2, 3])
+    share = list(rng.choice(SHARING[nf]))
+    nd = max(share) + 1
+    n = rng.choice(FAM_LENS)
+    r = rng.random()
+    if r < 0.6 or r < 0.8:
+        kind = "alru" if r < 0.6 else "inst"
+        s0 = gen_sig(rng)
+        if kind == "alru" and not s0["pos"] and rng.random() < 0.7:
+            s0["pos"] = [[0, None]]
+            s0["kw"] = [[m + 1, d] for m, d in s0["kw"]]
+        q = rng.random()
+        if q < 0.55:
+            sigs = [json.loads(json.dumps(s0)) for _ in range(nf)]
+        elif q < 0.8:
+            sigs = [s0] + [_sim_sig(rng, s0) for _ in range(nf - 1)]
+        else:
+            sigs = [s0] + [gen_sig(rng) for _ in range(nf - 1)]
+        if kind == "alru":
+            decos = []
+            for _ in range(nd):
+                km = rng.choice(["default"] * 9 + ["first", "first", ["sum", 2], ["sum", 3], "const"])
+                decos.append({"km": km, "maxsize": rng.choice([1, 2, 2, 3, 3, 4, 128])})
+            if malformed and rng.random() < 0.1:
+                decos[rng.randrange(nd)]["maxsize"] = rng.choice([0, -1])
+            target = "method" if (all(d["km"] == "default" for d in decos) and rng.random() < 0.25) else "fn"
+            ninst = rng.choice([1, 2]) if target == "method" else 0
+            ops = gen_family_history(rng, kind, sigs, malformed, ninst, False, n)
+            c = {"kind": "alru", "target": target, "decos": decos, "fns": [{"deco": share[f], "sig": sigs[f]} for f in range(nf)], "ops": ops}
+        else:
+            ninst = rng.choice([1, 2, 2, 3])
+            ops = gen_family_history(rng, kind, sigs, malformed, ninst, True, n)
+            c = {"kind": "inst", "decos": nd, "fns": [{"deco": share[f], "sig": sigs[f]} for f in range(nf)], "ops": ops}
+    else:
+        decos = [{"ttl": rng.choice([0, 0, 5, 10, 100])} for _ in range(nd)]
+        now0 = rng.choice([1, 1000])
+        if malformed:
+            now0 = rng.choice([now0, 0, -3])
+            decos[0]["ttl"] = rng.choice([decos[0]["ttl"], -5])
+        ttls = [decos[share[f]]["ttl"] for f in range(nf)]
+        ops = []
+        pending = []
+        i = 0
+        while len(ops) < n:
+            q = rng.random()
+            if pending and q < 0.2:
+                cid, cf = pending.pop(rng.randrange(len(pending)))
+                ops.append({"op": "finish", "id": cid, "fn": cf})
+            elif q < 0.37:
+                ops.append({"op": "dirty", "fn": rng.randrange(nf)})
+            elif q < 0.52:
+                t = max(rng.choice(ttls), 0)
+                dts = [0, 1, 3, t, t + 1, 2 * t + 1]
+                if malformed:
+                    dts += [-1, -7]
+                ops.append({"op": "tick", "dt": rng.choice(dts)})
+            elif malformed and q < 0.57:
+                ops.append({"op": "finish", "id": rng.randrange(0, i + 2), "fn": rng.randrange(nf)})
+            else:
+                bl = rng.random() < 0.2
+                body = ["raise", 500 + i] if rng.random() < 0.12 else ["ret", 100 + i]
+                fn = rng.randrange(nf)
+                ops.append(_call(i, [], [], bl, body, None, fn))
+                if bl and rng.random() < 0.9:
+                    pending.append((i, fn))
+                i += 1
+        for cid, cf in pending:
+            ops.append({"op": "finish", "id": cid, "fn": cf})
+        c = {"kind": "lazy", "decos": decos, "fns": [{"deco": share[f]} for f in range(nf)], "now0": now0, "ops": ops}
+    c["meta"] = {"malformed": malformed, "family": True}
+    return c
+
+
 def all_spellings(sig, vals_per_param=(1, 2)):
     """every spelling of every logical tuple over a tiny value set (no surplus keywords)"""
     pos, kwo = sig["pos"], sig["kw"]
@@ -289,6 +465,7 @@ def exhaustive_cases():
 def gen_cases(rng, tier):
     n = 500 if tier == "quick" else 12000
     cs = [gen_case(rng) for _ in range(n)]
+    cs += [gen_family(rng) for _ in range(200 if tier == "quick" else 4000)]
     ex = exhaustive_cases()
     cs += ex if tier != "quick" else rng.sample(ex, 40)
     for c in cs:
@@ -305,44 +482,67 @@ def _body(b):
     return {"BRet": [b[1]]} if b[0] == "ret" else {"BRaise": [b[1]]}
 
 
+def _kmt(km):
+    return {"default": "KmDefault", "first": "KmFirst", "const": "KmConst"}.get(km) if isinstance(km, str) else {"KmSum": [km[1]]}
+
+
+def _sigtree(sig, method):
+    pos = ([[SELF, None]] if method else []) + sig["pos"]
+    return {"mkSig": [[_param(p) for p in pos], [_param(p) for p in sig["kw"]], bool(sig["varkw"])]}
+
+
+def _optree(kind, method, o):
+    """alru / inst operation -> aop / pop tree (None: not an operation of that kind)"""
+    if o["op"] == "call":
+        args = ([o["inst"]] if method else []) + o["args"]
+        cl = {"mkCall": [args, [{"": [k, v]} for k, v in o["kw"]]]}
+        if kind == "alru":
+            return {"ACall": [o["id"], cl, bool(o["bl"]), _body(o["body"])]}
+        return {"PCall": [o["id"], o["inst"], cl, bool(o["bl"]), _body(o["body"])]}
+    if o["op"] == "finish":
+        if kind == "alru":
+            return {"AFinish": [o["id"]]}
+        return {"PFinish": [o["id"], o["inst"]]}
+    if o["op"] == "drop":
+        return {"PDrop": [o["inst"]]}
+    return None
+
+
+def _lazyop(o):
+    if o["op"] == "call":
+        return {"LCall": [o["id"], bool(o["bl"]), _body(o["body"])]}
+    if o["op"] == "finish":
+        return {"LFinish": [o["id"]]}
+    if o["op"] == "dirty":
+        return "LDirty"
+    return {"LTick": [o["dt"]]}
+
+
+def is_family(c):
+    return "fns" in c
+
+
 def case_tree(c):
     kind = c["kind"]
+    if is_family(c):
+        def at(o, t):
+            return {"": [{"n": o.get("fn", 0)}, t]}
+        if kind == "lazy":
+            return {"CLazyM": [[d["ttl"] for d in c["decos"]], [{"n": f["deco"]} for f in c["fns"]], c["now0"],
+                               [at(o, _lazyop(o)) for o in c["ops"]]]}
+        method = kind == "alru" and c["target"] == "method"
+        fns = [{"": [{"n": f["deco"]}, _sigtree(f["sig"], method)]} for f in c["fns"]]
+        ops = [at(o, _optree(kind, method, o)) for o in c["ops"]]
+        if kind == "alru":
+            return {"CAlruM": [[{"": [_kmt(d["km"]), d["maxsize"]]} for d in c["decos"]], fns, ops]}
+        return {"CInstM": [{"n": c["decos"]}, fns, ops]}
     if kind == "lazy":
-        ops = []
-        for o in c["ops"]:
-            if o["op"] == "call":
-                ops.append({"LCall": [o["id"], bool(o["bl"]), _body(o["body"])]})
-            elif o["op"] == "finish":
-                ops.append({"LFinish": [o["id"]]})
-            elif o["op"] == "dirty":
-                ops.append("LDirty")
-            else:
-                ops.append({"LTick": [o["dt"]]})
-        return {"CLazy": [c["ttl"], c["now0"], ops]}
-    sig = c["sig"]
+        return {"CLazy": [c["ttl"], c["now0"], [_lazyop(o) for o in c["ops"]]]}
     method = kind == "alru" and c["target"] == "method"
-    pos = ([[SELF, None]] if method else []) + sig["pos"]
-    st = {"mkSig": [[_param(p) for p in pos], [_param(p) for p in sig["kw"]], bool(sig["varkw"])]}
-    ops = []
-    for o in c["ops"]:
-        if o["op"] == "call":
-            args = ([o["inst"]] if method else []) + o["args"]
-            cl = {"mkCall": [args, [{"": [k, v]} for k, v in o["kw"]]]}
-            if kind == "alru":
-                ops.append({"ACall": [o["id"], cl, bool(o["bl"]), _body(o["body"])]})
-            else:
-                ops.append({"PCall": [o["id"], o["inst"], cl, bool(o["bl"]), _body(o["body"])]})
-        elif o["op"] == "finish":
-            if kind == "alru":
-                ops.append({"AFinish": [o["id"]]})
-            else:
-                ops.append({"PFinish": [o["id"], o["inst"]]})
-        elif o["op"] == "drop":
-            ops.append({"PDrop": [o["inst"]]})
+    st = _sigtree(c["sig"], method)
+    ops = [t for t in (_optree(kind, method, o) for o in c["ops"]) if t is not None]
     if kind == "alru":
-        km = c["km"]
-        kmt = {"default": "KmDefault", "first": "KmFirst", "const": "KmConst"}.get(km) if isinstance(km, str) else {"KmSum": [km[1]]}
-        return {"CAlru": [kmt, c["maxsize"], st, ops]}
+        return {"CAlru": [_kmt(c["km"]), c["maxsize"], st, ops]}
     return {"CInst": [st, ops]}
 
 
@@ -373,6 +573,23 @@ CORPUS_RAW = [
     {"kind": "lazy", "ttl": 0, "now0": 1,
      "ops": [_call(0, [], []), {"op": "tick", "dt": 1000}, _call(1, [], []), {"op": "dirty"}, _call(2, [], []), _call(3, [], [])]},
     {"kind": "alru", "target": "fn", "km": "default", "maxsize": 0, "sig": {"pos": [[0, None]], "kw": [], "varkw": False}, "ops": [_call(0, [1], [])]},
+    # families.  `memo = alru_cache(maxsize=2)` applied to two functions: coinciding normalised arguments ...
+    {"kind": "alru", "target": "fn", "decos": [{"km": "default", "maxsize": 2}],
+     "fns": [{"deco": 0, "sig": {"pos": [[0, None], [1, 1]], "kw": [], "varkw": False}}, {"deco": 0, "sig": {"pos": [[0, None], [1, 1]], "kw": [], "varkw": False}}],
+     "ops": [_call(0, [1], [], fn=0), _call(1, [1], [[1, 1]], fn=0), _call(2, [1], [], fn=1), _call(3, [], [[0, 1]], fn=1)]},
+    # ... and disjoint arguments: each function has its own maxsize budget, nothing is evicted
+    {"kind": "alru", "target": "fn", "decos": [{"km": "first", "maxsize": 2}],
+     "fns": [{"deco": 0, "sig": {"pos": [[0, None]], "kw": [], "varkw": False}}, {"deco": 0, "sig": {"pos": [[0, None]], "kw": [], "varkw": False}}],
+     "ops": [_call(0, [1], [], fn=0), _call(1, [2], [], fn=0), _call(2, [3], [], fn=1), _call(3, [4], [], fn=1),
+             _call(4, [1], [], fn=0), _call(5, [2], [], fn=0), _call(6, [3], [], fn=1), _call(7, [4], [], fn=1)]},
+    # one acached_per_instance() object on two methods of one class, one alazy_constant() object on two functions
+    {"kind": "inst", "decos": 1,
+     "fns": [{"deco": 0, "sig": {"pos": [[0, None]], "kw": [], "varkw": False}}, {"deco": 0, "sig": {"pos": [[0, 1]], "kw": [], "varkw": False}}],
+     "ops": [_call(0, [1], [], inst=0, fn=0), _call(1, [], [], inst=0, fn=1), _call(2, [1], [], inst=0, fn=0), _call(3, [1], [], inst=0, fn=1),
+             {"op": "drop", "inst": 0}, _call(4, [1], [], inst=0, fn=1)]},
+    {"kind": "lazy", "decos": [{"ttl": 10}], "fns": [{"deco": 0}, {"deco": 0}], "now0": 100,
+     "ops": [_call(0, [], [], fn=0), _call(1, [], [], fn=1), {"op": "dirty", "fn": 0}, _call(2, [], [], fn=1), _call(3, [], [], fn=0),
+             {"op": "tick", "dt": 11}, _call(4, [], [], fn=1), _call(5, [], [], fn=0), _call(6, [], [], fn=0)]},
 ]
 
 
@@ -518,6 +735,8 @@ def walk(c, impl_rs=None, body_runs=None):
     if kind == "alru" and c["maxsize"] <= 0:
         return R if impl_rs is None else fs
     tag = kind if kind != "alru" else "alru:%s:%s" % (c["km"] if isinstance(c["km"], str) else "sum", c["target"])
+    if c.get("_family"):        # the projection of a family history onto one of its functions (see family_monitors)
+        tag += ":" + c["_family"]
     producers = {}     # value -> (call op) that produced it
     spell_of = {}      # producer id -> spelling
     # LRU-order clauses are only attributable when the lookups and stores seen so far were keyed the way the reference
@@ -712,6 +931,12 @@ def walk(c, impl_rs=None, body_runs=None):
                 if size[0] > c["maxsize"]:
                     finding("size-and-lru", "size-exceeds-maxsize", "len(cache) = %d > maxsize = %d" % (size[0], c["maxsize"]), k)
                     return fs
+                if c.get("_family") and not taint[0] and size[0] != len(R.lru):
+                    # every decorated function has its own maxsize budget: its cache holds what its own reference LRU holds
+                    finding("size-and-lru", "entry-count-differs-from-own-reference",
+                            "this function's cache holds %d entries, its own reference LRU (maxsize %d) holds %d"
+                            % (size[0], c["maxsize"], len(R.lru)), k)
+                    return fs
             if kind == "inst" and size[0] >= 0:
                 if size[0] != len(R.inst):
                     site = "entry-survives-drop" if size[0] > len(R.inst) else "live-instance-entry-missing"
@@ -735,16 +960,152 @@ def _key_of_id(R, c, cid):
     return None
 
 
+# --------------------------------------------------------------------------------------------- families
+def fn_conf(c, f):
+    """the configuration function f of a family was decorated with"""
+    fd = c["fns"][f]
+    d = c["decos"][fd["deco"]] if c["kind"] != "inst" else {}
+    return fd, d
+
+
+def sharing_of(c, f):
+    d = c["fns"][f]["deco"]
+    n = sum(1 for g in c["fns"] if g["deco"] == d)
+    return "shared-decorator-object" if n > 1 else "own-decorator-object"
+
+
+def project(c, f):
+    """The history as function f alone sees it: its own calls / finishes / dirty(), plus what is common to the family
+    (drops of instances, clock ticks).  Returns (single-function case, indices of the kept operations)."""
+    fd, d = fn_conf(c, f)
+    keep = [k for k, o in enumerate(c["ops"]) if o.get("fn", f) == f or o["op"] in ("drop", "tick")]
+    pc = {"kind": c["kind"], "ops": [c["ops"][k] for k in keep],
+          "_family": "family:%s" % sharing_of(c, f)}
+    if c["kind"] == "alru":
+        pc.update(target=c["target"], km=d["km"], maxsize=d["maxsize"], sig=fd["sig"])
+    elif c["kind"] == "inst":
+        pc.update(sig=fd["sig"])
+    else:
+        pc.update(ttl=d["ttl"], now0=c["now0"])
+    return pc, keep
+
+
+def family_monitors(c, rs, runs):
+    """The reference of the statement for a family of decorated functions is one independent reference cache per
+    function (per method and instance; per lazy constant).  (1) isolation clauses on the interleaved history,
+    (2) every function's projection of the history against its own reference cache."""
+    kind = c["kind"]
+    nf = len(c["fns"])
+    fs = []
+    if kind == "alru" and any(d["maxsize"] <= 0 for d in c["decos"]):
+        return [dict(clause="size-and-lru", site="alru:accepts-nonpositive-maxsize", msg="alru_cache(maxsize<=0) was accepted")]
+    tag0 = kind if kind != "alru" else "alru:%s" % c["target"]
+    fn_of_call = {o["id"]: o.get("fn") for o in c["ops"] if o["op"] == "call"}
+    producer = {o["body"][1]: o for o in c["ops"] if o["op"] == "call" and o["body"][0] == "ret"}
+
+    def res_of(k):
+        g = rs[k]
+        return g if kind == "lazy" else g[""][0]
+
+    # (1a) a miss must run the body of THAT function
+    for e in runs:
+        cid, bf = e[""]
+        if cid in fn_of_call and bf != fn_of_call[cid]:
+            fs.append(dict(clause="no-cross-talk", site="%s:%s:body-of-other-function-ran" % (tag0, sharing_of(c, fn_of_call[cid])),
+                           msg="call %d of function %d was computed by the body of function %s" % (cid, fn_of_call[cid], bf)))
+            break
+    # (1b) a value served from the cache must have been computed by that function's own body
+    for k, o in enumerate(c["ops"]):
+        if o["op"] != "call":
+            continue
+        g = res_of(k)
+        if _res_name(g) == "RHit":
+            v = g["RHit"][0]
+            po = producer.get(v)
+            if po is not None and po.get("fn") != o.get("fn"):
+                same = (po["args"], sorted(map(tuple, po["kw"])), po.get("inst")) == (o["args"], sorted(map(tuple, o["kw"])), o.get("inst"))
+                fs.append(dict(clause="no-cross-talk",
+                               site="%s:%s:hit-on-other-function-value:%s" % (tag0, sharing_of(c, o["fn"]), "same-spelling" if same else "other-spelling"),
+                               msg="op %d: call %d of function %d %s received %s without running its body; that value was computed by call %d "
+                                   "of function %d %s" % (k, o["id"], o["fn"], _show(o), v, po["id"], po["fn"], _show(po))))
+                break
+    # (2) per function: its projection against its own reference cache
+    run_ids = {}
+    for e in runs:
+        cid, bf = e[""]
+        run_ids.setdefault(bf, []).append(cid)
+    for f in range(nf):
+        pc, keep = project(c, f)
+        prs = []
+        for k in keep:
+            g = rs[k]
+            if kind == "lazy":
+                prs.append(g)
+            elif kind == "alru":
+                prs.append({"": [g[""][0], g[""][1][f]]})
+            else:
+                prs.append({"": [g[""][0]] + list(g[""][1][f][""])})
+        sub = walk(pc, prs, run_ids.get(f, []))
+        if fs and fs[0]["clause"] == "no-cross-talk":
+            # the projection sees a value of another function as a value nobody produced: same deviation as (1)
+            sub = [x for x in sub if not x["site"].endswith(":hit-unknown-value")]
+        for x in sub:
+            m = re.match(r"op (\d+): (.*)", x["msg"], re.S)
+            if m:       # index in the family history, not in the projection
+                x["msg"] = "op %d: %s" % (keep[int(m.group(1))], m.group(2))
+            x["msg"] = "function %d of %d (%s): %s" % (f, nf, sharing_of(c, f), x["msg"])
+        fs += sub
+    if not fs:
+        seen = set()
+        for e in runs:
+            cid = e[""][0]
+            if cid in seen:
+                fs.append(dict(clause="refines-reference", site="%s:body-ran-twice" % kind, msg="the body of call %s ran twice" % cid))
+                break
+            seen.add(cid)
+    return fs
+
+
+def family_stats(c):
+    """reference statistics of a family (for nontrivial / distribution)"""
+    st = {"hits": 0, "misses": 0, "evictions": 0, "forced": 0, "drops": 0, "called": set(), "keys": {}}
+    for f in range(len(c["fns"])):
+        pc, _ = project(c, f)
+        if pc["kind"] == "alru" and pc["maxsize"] <= 0:
+            continue
+        R = walk(pc)
+        st["hits"] += R.hits
+        st["misses"] += R.misses
+        st["evictions"] += R.evictions
+        st["forced"] += R.forced
+        st["drops"] = max(st["drops"], R.drops)
+        ks = set()
+        for o in pc["ops"]:
+            if o["op"] == "call":
+                st["called"].add(f)
+                if c["kind"] != "lazy":
+                    ks.add(json.dumps([R.key(o)[0], o.get("inst") if c["kind"] == "inst" else None]))
+        st["keys"][f] = ks
+    return st
+
+
+def family_collides(st):
+    fs = sorted(st["keys"])
+    return any(st["keys"][a] & st["keys"][b] for i, a in enumerate(fs) for b in fs[i + 1:])
+
+
 def monitors(c, io, build):
     if "out" not in io:
         return [dict(clause="refines-reference", site="%s:%s" % (c["kind"], next(iter(io)).lower()),
                      msg="the history did not run to completion: %s" % json.dumps(io)[:200])]
     out = io["out"]
     if out == "OBadMaxsize":
-        if c["kind"] == "alru" and c["maxsize"] <= 0:
+        if c["kind"] == "alru" and ((not is_family(c) and c["maxsize"] <= 0) or (is_family(c) and any(d["maxsize"] <= 0 for d in c["decos"]))):
             return []
         return [dict(clause="refines-reference", site="decorator:rejects-valid-maxsize", msg="the decorator raised ValueError for maxsize=%s" % c.get("maxsize"))]
     (ctor, (rs, runs)), = out.items()
+    if is_family(c):
+        return family_monitors(c, rs, runs)
     if c["kind"] == "alru" and c["maxsize"] <= 0:
         return [dict(clause="size-and-lru", site="alru:accepts-nonpositive-maxsize", msg="alru_cache(maxsize=%s) was accepted" % c["maxsize"])]
     fs = walk(c, rs, runs)
@@ -794,6 +1155,13 @@ def compare(c, m, io):
 
 
 def nontrivial(c):
+    if is_family(c):
+        # >= 2 functions called, the reference caches see a hit and a miss, and the functions meet: coinciding
+        # normalised arguments / keys in two functions (alru, per-instance), or a forced recomputation (lazy)
+        st = family_stats(c)
+        if len(st["called"]) < 2 or st["hits"] < 1 or st["misses"] < 1:
+            return False
+        return st["forced"] >= 1 if c["kind"] == "lazy" else (family_collides(st) or st["evictions"] >= 1)
     R = walk(c)
     if c["kind"] == "alru":
         return R.hits >= 1 and R.misses >= 1 and R.evictions >= 1
@@ -805,15 +1173,32 @@ def nontrivial(c):
 
 def distribution(cases):
     d = {"kind": {}, "km": {}, "maxsize": {}, "oplen": {}, "malformed": 0, "exhaustive_spelling_pairs": 0, "blocking_calls": 0,
-         "raising_bodies": 0, "calls": 0, "drops": 0, "finishes": 0, "sig_positional": {}, "sig_defaults": {}, "sig_kwonly": {}, "sig_varkw": 0}
+         "raising_bodies": 0, "calls": 0, "drops": 0, "finishes": 0, "sig_positional": {}, "sig_defaults": {}, "sig_kwonly": {}, "sig_varkw": 0,
+         "family": {"cases": 0, "kind": {}, "functions": {}, "decorator_sharing": {}, "same_signature": 0,
+                    "coinciding_keys_across_functions": 0, "reference_evictions": 0}}
     for c in cases:
-        k = c["kind"] + (":" + c["target"] if c["kind"] == "alru" else "")
+        if is_family(c):
+            F = d["family"]
+            F["cases"] += 1
+            k = c["kind"] + (":" + c["target"] if c["kind"] == "alru" else "")
+            F["kind"][k] = F["kind"].get(k, 0) + 1
+            nf = len(c["fns"])
+            F["functions"][str(nf)] = F["functions"].get(str(nf), 0) + 1
+            nd = len({f["deco"] for f in c["fns"]})
+            sh = "all-one-object" if nd == 1 else "all-separate" if nd == nf else "mixed"
+            F["decorator_sharing"][sh] = F["decorator_sharing"].get(sh, 0) + 1
+            if c["kind"] != "lazy":
+                F["same_signature"] += 1 if all(f["sig"] == c["fns"][0]["sig"] for f in c["fns"]) else 0
+                st = family_stats(c)
+                F["coinciding_keys_across_functions"] += 1 if family_collides(st) else 0
+                F["reference_evictions"] += 1 if st["evictions"] else 0
+        k = ("family:" if is_family(c) else "") + c["kind"] + (":" + c["target"] if c["kind"] == "alru" else "")
         d["kind"][k] = d["kind"].get(k, 0) + 1
-        if c["kind"] == "alru":
+        if c["kind"] == "alru" and not is_family(c):
             km = c["km"] if isinstance(c["km"], str) else "sum"
             d["km"][km] = d["km"].get(km, 0) + 1
             d["maxsize"][str(c["maxsize"])] = d["maxsize"].get(str(c["maxsize"]), 0) + 1
-        if c["kind"] != "lazy":
+        if c["kind"] != "lazy" and not is_family(c):
             s = c["sig"]
             for nm, val in (("sig_positional", len(s["pos"])), ("sig_defaults", sum(1 for _, x in s["pos"] + s["kw"] if x is not None)), ("sig_kwonly", len(s["kw"]))):
                 d[nm][str(val)] = d[nm].get(str(val), 0) + 1
@@ -857,5 +1242,8 @@ def shrink(c):
         if o["op"] == "call" and o["bl"]:
             o2 = dict(o, bl=False)
             yield mk(ops[:i] + [o2] + ops[i + 1:])
-    if c["kind"] == "alru" and c["maxsize"] == 128:
-        pass
+    if is_family(c):
+        # fewer functions: drop the last function when no operation addresses it
+        nf = len(c["fns"])
+        if nf > 2 and all(o.get("fn", 0) != nf - 1 for o in ops):
+            yield mk(ops, fns=c["fns"][:-1])
